@@ -99,7 +99,12 @@ def play_history(bins, beh, n, hist, rng):
                 exp += [(t, "out"), (t, "err")]
             fx.reset_helper()
             if h["kind"] == "complete":
-                res = fx.monorail(args)
+                hook_file = os.path.join(fx.root, "hooks-%d.ndjson" % rno)
+                res = fx.monorail(args, env={"MONORAIL_VERIF_TRACE": hook_file} if rno <= 2 else None)
+                if rno <= 2 and os.path.exists(hook_file):
+                    with open(hook_file) as hf:
+                        hooks = sorted((json.loads(l) for l in hf if l.strip()), key=lambda e: e["seq"])
+                    ev.append({"ev": "_hooks", "run": rno, "points": [{"point": x["point"]} for x in hooks]})
                 ok = res["rc"] in (0, 1) and isinstance(res["out"], dict) and "results" in res["out"]
                 slot = -1
                 if ok:
@@ -229,6 +234,27 @@ def run(pid, tier):
         return play_history(bins, i, n, h, random.Random(chk.seed * 31 + i))
     with ThreadPoolExecutor(max_workers=12) as ex:
         traces = list(ex.map(one, enumerate(hs)))
+    # ---- internal effect order of completed runs against Store's effect sequence (MODEL-DRIFT only)
+    hook_traces = [e["points"] for t in traces for e in t if e["ev"] == "_hooks" and e["points"]]
+    if hook_traces:
+        import tempfile, shutil
+        tmp = tempfile.mkdtemp(prefix="storetrace-")
+        jobs = []
+        for i, pts in enumerate(hook_traces[:24]):
+            pth = os.path.join(tmp, "t%d.ndjson" % i)
+            with open(pth, "w") as f:
+                for e in pts:
+                    f.write(json.dumps(e) + "\n")
+            jobs.append(dict(module="trace/StoreImplTrace", cfg_text="SPECIFICATION Spec\nINVARIANT NotAccepted\nCHECK_DEADLOCK FALSE\n",
+                             workers=1, timeout=120, env={"TRACE": pth}, xmx="1g"))
+        res = vlib.tlc_parallel(jobs, max_parallel=8)
+        shutil.rmtree(tmp, ignore_errors=True)
+        acc = sum(1 for r in res if "NotAccepted" in r.violated)
+        chk.cov["effect_order_traces_validated_against_Store"] = len(jobs)
+        chk.cov["effect_order_traces_accepted"] = acc
+        if acc < len(jobs):
+            chk.notes.append({"MODEL-DRIFT": "%d of %d completed runs did not perform wipe, mkdir, logs, result, ptrwrite in the specification's order" % (len(jobs) - acc, len(jobs))})
+    traces = [[e for e in t if e["ev"] != "_hooks"] for t in traces]
     clean = [[{k: v for k, v in e.items() if k not in ("stderr", "note", "point")} for e in t] for t in traces]
     fails, st, tr = vlib.judge_traces("StoreJudge", clean, shards=min(8, max(1, len(clean) // 4)))
     chk.cov["states"] += st
